@@ -2,7 +2,14 @@
 //! `vth <property> [--tier quick|thorough] [--seed N] --out DIR [--replay FILE] [extra…]`
 //! Drives the real versatiles-rs crates; writes cases.txt / impl.txt / stats.json into DIR.
 mod common;
+mod indep_mvt;
 mod c04;
+mod c07;
+mod c11;
+mod c15;
+mod c17;
+mod c18;
+mod c13;
 mod c20;
 mod memsrc;
 
@@ -23,7 +30,13 @@ fn main() {
 		}
 	}
 	match prop.as_str() {
+		"C11" => c11::run(&args),
+		"C15" => c15::run(&args),
+		"C17" => c17::run(&args),
 		"C04" => c04::run(&args),
+		"C18" => c18::run(&args),
+		"C07" => c07::run(&args),
+		"C13" => c13::run(&args),
 		"C20" => c20::run(&args),
 		_ => {
 			eprintln!("unknown property {prop}");
